@@ -40,6 +40,10 @@ var ProgramPool = []struct {
 	{"example.com/other/sub", []string{"v1.0.0"}},  // its path continues another program's: ("example.com/other", "sub/plain") is not ("example.com/other/sub", "plain")
 }
 
+// NoMultiPage switches the count files of several pages off (a harness that has to
+// keep a week's report below a size sets it).
+var NoMultiPage bool
+
 var GoVersionPool = []string{"go1.21.0", "go1.22.1", "devel"}
 
 var PlatformPool = [][2]string{{"linux", "amd64"}, {"linux", "amd64"}, {"darwin", "arm64"}, {"plan9", "mips"}, {"linux", "arm64"}, {"linux", "mips"}, {"darwin", "386"}}
@@ -262,6 +266,18 @@ func WriteCounterFile(t *simrt.Tape, s *simrt.Sim, dir string, begin time.Time, 
 			}
 			pairs = append(pairs, refformat.Pair{Name: name, Value: val})
 		}
+	}
+	if kind == 0 && t.Bool(1, 12) && !NoMultiPage {
+		// a program with many distinct stacks: the file runs over several pages
+		for i, n := 0, 20+t.Draw(30); i < n; i++ {
+			var sb strings.Builder
+			sb.WriteString([]string{"crash/crash", "crash/other", "crash/crash2"}[t.Draw(3)])
+			for f := 0; sb.Len() < 700+t.Draw(600); f++ {
+				fmt.Fprintf(&sb, "\nexample.com/deep/pkg%d.(*T).m%d:+%d,+0x%x", i, f, f+1, 16*f+i)
+			}
+			pairs = append(pairs, refformat.Pair{Name: sb.String(), Value: uint64(1 + t.Draw(9))})
+		}
+		s.Probe("count-file-of-several-pages")
 	}
 	data, err := refformat.Encode(meta, pairs, t.Draw(2))
 	if err != nil {
